@@ -1,7 +1,8 @@
 """SESSION (growth, not one of the listed properties) - a client and a server composed only of library primitives.
 
 Model: spec/EoSession.tla - handshake (challenge -> server_verification_hash, INIT sequence start through two chars),
-sequenced traffic on FIFO channels, ping updates racing with packets in flight (server keeps the new start pending until
+sequenced traffic on FIFO channels in EoFrame frames (length prefix, action, family, char-or-short sequence number, body; encrypted
+per direction), unsequenced server traffic, the ACCOUNT_REPLY start (postponed while a ping is outstanding), ping updates racing with packets in flight (server keeps the new start pending until
 the pong), bodies encrypted with swap_multiples / interleave / flip_msb.  TLC: MC_EoSession exhaustively (bounded channels,
 11 packets = past a counter wrap, 2 pings) with Lockstep, GenuineServerAccepted, ComponentsTransmittable, HashFitsEoInt,
 StartsAgreeWhenQuiet; plus -simulate walks of a larger instance that are emitted.  Binding: R - every emitted behaviour is
@@ -18,20 +19,69 @@ PROP = "SESSION"
 MULTS = (3, 7)
 
 
+KIND = {"data": (4, 21), "pong": (6, 3), "acct_req": (1, 5), "acct_reply": (3, 5), "sdata": (10, 18)}
+
+
+def real_frame(lib, action, family, seq, body, m):
+    """EoFrame!Frame written with the real primitives."""
+    ss, ps, sv, enc, W, R, num = lib
+    w = W()
+    w.add_byte(action)
+    w.add_byte(family)
+    if seq != -1:
+        (w.add_short if seq >= 253 else w.add_char)(seq)
+    w.add_bytes(bytes(body))
+    p = bytearray(w.to_bytearray())
+    if not (len(p) >= 2 and p[0] == 255 and p[1] == 255) and m != 0:
+        enc.swap_multiples(p, m)
+        enc.interleave(p)
+        enc.flip_msb(p)
+    return list(num.encode_number(len(p))[:2]) + list(p)
+
+
+def real_unframe(lib, wire, expect, m):
+    """EoFrame!Unframe read with the real primitives: (len, action, family, seq, body)."""
+    ss, ps, sv, enc, W, R, num = lib
+    ln = num.decode_number(bytes(wire[:2]))
+    p = bytearray(wire[2:2 + ln])
+    if not (len(p) >= 2 and p[0] == 255 and p[1] == 255) and m != 0:
+        enc.flip_msb(p)
+        enc.deinterleave(p)
+        enc.swap_multiples(p, m)
+    r = R(bytes(p))
+    action, family = r.get_byte(), r.get_byte()
+    seq = -1 if expect == -1 else (r.get_short() if expect >= 253 else r.get_char())
+    return ln, action, family, seq, list(r.get_bytes(r.remaining))
+
+
 def _replay(lib, beh):
     """Returns None or a description of the first divergence."""
-    ss, ps, sv, enc, W, R = lib
+    ss, ps, sv, enc, W, R, num = lib
     challenge = beh["challenge"]
     client = server = None
     pending = None
     prev_c2s, prev_s2c = [], []
+
+    def sent_ok(i, a, msg, n, kind, body, m):
+        if "seq" in msg and n != msg["seq"]:
+            return f"step {i} {a}: next_sequence() = {n}, model {msg['seq']}"
+        f = real_frame(lib, KIND[kind][0], KIND[kind][1], n, body, m)
+        if f != msg["wire"]:
+            return f"step {i} {a}: real frame {f}, model {msg['wire']}"
+        return None
+
+    def recv_ok(i, a, msg, expect, kind, body, m, ok):
+        ln, action, family, seq, got = real_unframe(lib, msg["wire"], expect, m)
+        good = (ln == len(msg["wire"]) - 2 and (action, family) == KIND[kind] and seq == expect and (body is None or got == body))
+        if good != ok or not ok:
+            return f"step {i} {a}: expecting {expect}, the frame decodes to len={ln} action={action} family={family} seq={seq} body={got} (model ok={ok})"
+        return None
+
     for i, st in enumerate(beh["log"]):
         a = st["a"]
         c2s, s2c = st["c2s"], st["s2c"]
-        new_c = c2s[len(prev_c2s) - (1 if a in ("ServerHello", "ServerRecv", "ServerPong") else 0):] if len(c2s) >= len(prev_c2s) - 1 else []
-        if a == "ClientHello":
-            pass
-        elif a == "ServerHello":
+        bad = None
+        if a == "ServerHello":
             msg = s2c[-1]
             h = sv.server_verification_hash(challenge)
             if h != msg["hash"]:
@@ -53,23 +103,13 @@ def _replay(lib, beh):
                 return f"step {i} ClientInitReply: client start {start.value}, model {st['cstart']}"
             client = ps.PacketSequencer(start)
         elif a == "ClientSend":
-            msg = c2s[-1]
-            n = client.next_sequence()
-            if n != msg["seq"]:
-                return f"step {i} ClientSend: client next_sequence() = {n}, model {msg['seq']}"
-            buf = bytearray(msg["plain"])
-            enc.swap_multiples(buf, MULTS[0]); enc.interleave(buf); enc.flip_msb(buf)
-            if list(buf) != msg["wire"]:
-                return f"step {i} ClientSend: encrypted body {list(buf)}, model {msg['wire']}"
+            bad = sent_ok(i, a, c2s[-1], client.next_sequence(), "data", c2s[-1]["plain"], MULTS[0])
         elif a == "ServerRecv":
-            msg = prev_c2s[0]
-            n = server.next_sequence()
-            if (n == msg["seq"]) != st["ok"] or not st["ok"]:
-                return f"step {i} ServerRecv: server expects {n}, packet carries {msg['seq']} (model ok={st['ok']})"
-            buf = bytearray(msg["wire"])
-            enc.flip_msb(buf); enc.deinterleave(buf); enc.swap_multiples(buf, MULTS[0])
-            if list(buf) != msg["plain"]:
-                return f"step {i} ServerRecv: decrypted {list(buf)}, plaintext {msg['plain']}"
+            bad = recv_ok(i, a, prev_c2s[0], server.next_sequence(), "data", prev_c2s[0]["plain"], MULTS[0], st["ok"])
+        elif a == "ServerSend":
+            bad = sent_ok(i, a, s2c[-1], -1, "sdata", s2c[-1]["plain"], MULTS[1])
+        elif a == "ClientRecv":
+            bad = recv_ok(i, a, prev_s2c[0], -1, "sdata", prev_s2c[0]["plain"], MULTS[1], st["ok"])
         elif a == "ServerPing":
             msg = s2c[-1]
             w = W()
@@ -82,15 +122,30 @@ def _replay(lib, beh):
         elif a == "ClientPing":
             msg = prev_s2c[0]
             client.set_sequence_start(ss.PingSequenceStart.from_ping_values(msg["seq1"], msg["seq2"]))
-            n = client.next_sequence()
-            if n != c2s[-1]["seq"]:
-                return f"step {i} ClientPing: pong numbered {n}, model {c2s[-1]['seq']}"
+            bad = sent_ok(i, a, c2s[-1], client.next_sequence(), "pong", [], MULTS[0])
         elif a == "ServerPong":
-            msg = prev_c2s[0]
             server.set_sequence_start(pending)
-            n = server.next_sequence()
-            if n != msg["seq"] or not st["ok"]:
-                return f"step {i} ServerPong: server expects {n}, pong carries {msg['seq']}"
+            bad = recv_ok(i, a, prev_c2s[0], server.next_sequence(), "pong", [], MULTS[0], st["ok"])
+        elif a == "ClientAcctRequest":
+            bad = sent_ok(i, a, c2s[-1], client.next_sequence(), "acct_req", [], MULTS[0])
+        elif a == "ServerAcctRecv":
+            bad = recv_ok(i, a, prev_c2s[0], server.next_sequence(), "acct_req", [], MULTS[0], st["ok"])
+        elif a == "ServerAcctReply":
+            msg = s2c[-1]
+            start = ss.AccountReplySequenceStart.from_value(msg["value"])
+            server.set_sequence_start(start)
+            if start.value != st["sstart"]:
+                return f"step {i} ServerAcctReply: AccountReplySequenceStart.from_value({msg['value']}).value = {start.value}, model {st['sstart']}"
+            bad = sent_ok(i, a, msg, -1, "acct_reply", list(num.encode_number(msg["value"])[:1]), MULTS[1])
+        elif a == "ClientAcctReply":
+            msg = prev_s2c[0]
+            ln, action, family, seq, body = real_unframe(lib, msg["wire"], -1, MULTS[1])
+            val = num.decode_number(bytes(body))
+            client.set_sequence_start(ss.AccountReplySequenceStart.from_value(val))
+            if (action, family) != KIND["acct_reply"] or val != msg["value"] or val != st["cstart"] or not st["ok"]:
+                return f"step {i} ClientAcctReply: the reply decodes to action={action} family={family} value={val}, model {msg['value']} / client start {st['cstart']}"
+        if bad:
+            return bad
         prev_c2s, prev_s2c = c2s, s2c
     return None
 
@@ -99,6 +154,9 @@ def run(tier, corrupt=False):
     v = Verdict(PROP, tier)
     r = run_tlc("MC_EoSession", "MC_EoSession.cfg", workers=8, coverage=True, timeout=1800)
     require(r.ok, "model-level failure in MC_EoSession:\n" + r.tail())
+    # the spec's own sanity: without the POSTPONE guard TLC must find the ping / account-reply race
+    rr = run_tlc("MC_EoSession", "MC_EoSession_race.cfg", workers=8, timeout=900)
+    require(not rr.ok and "StartsAgreeWhenQuiet" in rr.out, "the race configuration did not produce the expected counterexample")
     nsim = 300 if tier == "quick" else 5000
     rs = run_tlc("MC_EoSession", "MC_EoSession_sim.cfg", workers=1, simulate=f"num={nsim}", depth=90, extra=["-seed", str(seed() + 3)], timeout=1800)
     behs = {}
@@ -110,21 +168,23 @@ def run(tier, corrupt=False):
     with scratch("sess-") as tmp:
         load_eolib_stubbed(snapshot_repo(tmp))
         lib = (imp("eolib.packet.sequence_start"), imp("eolib.packet.packet_sequencer"), imp("eolib.encrypt.server_verification_utils"),
-               imp("eolib.encrypt.encryption_utils"), imp("eolib.data.eo_writer").EoWriter, imp("eolib.data.eo_reader").EoReader)
+               imp("eolib.encrypt.encryption_utils"), imp("eolib.data.eo_writer").EoWriter, imp("eolib.data.eo_reader").EoReader,
+               imp("eolib.data.number_encoding_utils"))
         steps = 0
         for bi, b in enumerate(behs):
             if corrupt and bi == 2:
                 b = json.loads(json.dumps(b))
                 for st in b["log"]:
                     if st["a"] == "ClientSend":
-                        st["c2s"][-1]["seq"] += 1
+                        st["c2s"][-1]["wire"][3] ^= 1
                         break
             steps += len(b["log"])
             bad = _replay(lib, b)
             if bad:
                 v.violation(f"session challenge={b['challenge']} actions={[s['a'] for s in b['log']][:25]}", bad, {"behaviour": b})
     cov = {"states": r.distinct + rs.distinct, "transitions": r.generated + rs.generated, "traces_validated_against_impl": len(behs), "steps_replayed": steps,
-           "model_runs": [{"module": "MC_EoSession", "distinct_states": r.distinct, "invariants": ["GenuineServerAccepted", "Lockstep", "HashFitsEoInt", "ComponentsTransmittable", "StartsAgreeWhenQuiet"]}],
+           "model_runs": [{"module": "MC_EoSession", "distinct_states": r.distinct, "invariants": ["GenuineServerAccepted", "Lockstep", "HashFitsEoInt", "ComponentsTransmittable", "StartsAgreeWhenQuiet"]},
+                          {"module": "MC_EoSession", "cfg": "MC_EoSession_race.cfg", "expected": "StartsAgreeWhenQuiet violated (the race the POSTPONE guard removes)"}],
            "samples": [{"challenge": behs[0]["challenge"], "actions": [s["a"] for s in behs[0]["log"]]}], "exhaustive": False,
            "explanation": "growth: protocol session composed of library primitives; exhaustive small instance + simulated larger behaviours replayed on the real primitives"}
     return v.finish(cov, ["FIFO channels", "the session protocol is the author's reading of how the EO client/server use these primitives"])
